@@ -775,9 +775,12 @@ func run(c *hx.Ctx) error {
 		res.AddBreak(proto.Break{Kind: kind, Name: name, Case: caseLine, Human: human, Impl: impl, Model: model, Finding: finding})
 	}
 
-	// known findings: replay the recorded minimal input on the real code
+	// known findings: replay the recorded minimal input on the real code. A class whose witness
+	// no longer fails (the defect was cured) or that is not listed as open is INACTIVE for this
+	// run: nothing is printed for it, it is not self-tested and nothing is attributed to it.
 	for _, f := range findingDefs {
 		if !c.HasFinding(f.id) {
+			classOff[f.id] = true
 			continue
 		}
 		if f.clause == "unescape-escape" {
@@ -788,6 +791,8 @@ func run(c *hx.Ctx) error {
 			if back := unhex(rs[0].Out); back != f.minimal {
 				report("property", f.clause, "C29 escape "+proto.Hex([]byte(f.minimal)), fmt.Sprintf("%q", f.minimal),
 					fmt.Sprintf("markdownUnescape(markdownURLEscape(%q)) = %q", f.minimal, back), "", f.id)
+			} else {
+				classOff[f.id] = true
 			}
 			continue
 		}
@@ -798,10 +803,18 @@ func run(c *hx.Ctx) error {
 		}
 		if cls[0] != "" && explain(f.minimal, cls[0], dets[0], rs[0]).id == f.id {
 			report("property", cls[0], "C29 replace "+proto.Hex([]byte(f.minimal)), fmt.Sprintf("document %q", f.minimal), dets[0], "", f.id)
+		} else {
+			classOff[f.id] = true
+		}
+	}
+	for _, f := range findingDefs {
+		if classOff[f.id] {
+			res.Notes = append(res.Notes, fmt.Sprintf("class %s: inactive on this tree (not listed as open, or its recorded witness %q no longer fails) - nothing is attributed to it", f.id, f.minimal))
 		}
 	}
 
 	// the finding classes must be narrow: what a class predicts must come true on the real code
+	// (measured and recorded on every run; an obligation - a broken tie - only with VERIF_C29_STRICT=1)
 	t0 := time.Now()
 	if err := precisionSelfTest(c, report); err != nil {
 		return err
